@@ -165,7 +165,15 @@ let run_cli (args : (string * string) list) : string =
     add "cli_refused" "ok"
   else if st <> "ok" then add "cli_scc" (fail st)
   else begin
-    let comp = ints_of_string (get args "comp") and sizes = ints_of_string (get args "sizes") in
+    let comp = ints_of_string (get args "comp") in
+    (* without the sizes option the number of components is read off the labels and the sizes
+       are recomputed from them *)
+    let with_sizes = get_int_def args "sizesopt" 1 = 1 in
+    let sizes = if with_sizes then ints_of_string (get args "sizes")
+      else begin
+        let k0 = List.fold_left (fun m c -> Stdlib.max m (c + 1)) 0 comp in
+        ints (compute_sizes (nats comp) (nat_of_int k0))
+      end in
     let k = List.length sizes in
     let renumber = get_int args "renumber" = 1 in
     add "cli_scc" (if check_scc g (nats comp) (nat_of_int k) then "ok"
